@@ -8,6 +8,7 @@ pub mod c32;
 pub mod ll;
 pub mod llrun;
 pub mod lrrun;
+pub mod scan;
 pub mod wf;
 pub mod xform;
 
@@ -19,6 +20,7 @@ pub fn replay_fn(kind: &str) -> Result<fn(&Value) -> Outcome> {
         "llrun" => llrun::replay,
         "c07" => c07::replay,
         "c31" => c31::replay,
+        "scan" => scan::replay,
         "c32" => c32::replay,
         "lrrun" => lrrun::replay,
         "xform" => xform::replay,
